@@ -25,7 +25,7 @@ META = {
     "functions": ["gfapy.line.edge.gfa2.to_gfa1.ToGFA1.overlap/oriented_from/oriented_to/from_segment/to_segment/from_orient/to_orient/pos/_is_sid1_from/_segment_role",
                   "AlignmentType._alignment_type"],
     "bounds": "one E line whose intervals are derived from ANY segment lengths and a CIGAR of 1..3 operations with ANY lengths (dovetail suffix/prefix, prefix/suffix, prefix/prefix, suffix/suffix, containment either way with the contained segment in the middle, at the start or at the end of the container); orientations symbolic",
-    "timeout": {"quick": 200, "thorough": 900}, "parts": {"quick": 4, "thorough": 4}},
+    "timeout": {"quick": 300, "thorough": 900}, "parts": {"quick": 10, "thorough": 10}},
   "h_roundtrip_gfa1": {"kind": "G",
     "functions": ["Gfa.to_gfa2/to_gfa2_s/to_gfa1/to_gfa1_s", "VersionConversion.to_version/to_version_s", "gfa1.to_gfa2.ToGFA2._to_gfa2_a",
                   "gfa2.to_gfa1.ToGFA1._to_gfa1_a", "segment GFA1ToGFA2/GFA2ToGFA1", "path ToGFA2._to_gfa2_a", "ordered ToGFA1._to_gfa1_a",
@@ -124,7 +124,7 @@ def _interval(kind, L, n, inner_beg):
 
 def h_e_to_link_fields(p1: bool, p2: bool, pat: int, L1: int, L2: int, ib: int, ops: List[Tuple[int, int]]) -> bool:
   """
-  pre: (2 * p1 + p2) % NPART == PART
+  pre: pat % NPART == PART
   pre: 0 <= pat < 10
   pre: 1 <= len(ops) <= 3
   pre: all(0 <= c < 4 and 0 <= n for (c, n) in ops)
